@@ -30,6 +30,7 @@ REGISTRY = {
     'X01': ('checks.extras', 'x01'),
     'X02': ('checks.extras', 'x02'),
     'X03': ('checks.extras', 'x03'),
+    'X04': ('checks.extras', 'x04'),
 }
 
 
